@@ -510,6 +510,7 @@ class LoopRun:
             g.kind = z3.Array(f'L{ordinal}_fs_kind', S_, z3.IntSort())
             g.content = z3.Array(f'L{ordinal}_fs_content', S_, z3.IntSort())
             g.complete = z3.Array(f'L{ordinal}_fs_complete', S_, z3.BoolSort())
+            self.extra_env['fs_iter0'] = g.clone()      # the file system at the start of the arbitrary iteration
         k = run.fresh(K.Int, f'L{ordinal}_k')
         run.assume(z3.And(k.t >= 0, k.t <= n))
         hyp = self.inv(ex, fr, k, xs)
